@@ -140,6 +140,129 @@ theorem clauseShape_typed {c s0 st : Node} {ss : List Node} (h : clauseShape c =
     · cases h
   · cases h
 
+/-! ### clauses that BIND the error: `except e`, `except as e`, `except "T", … as e` -/
+
+/-- the variable a binder child names: `as v` → v, an identifier → itself (read off the tree) -/
+def varOf (c0 : Node) : Option (List Nat) :=
+  if c0.name = "as" then
+    match c0.children with
+    | [some av] => av.tok.map (·.val)
+    | _ => none
+  else c0.tok.map (·.val)
+
+/-- the evaluator's computation of that variable -/
+def varM (c0 : Node) : M (List Nat) :=
+  if c0.name == "as" then do pure (← tokOf (← child c0 0)).val else do pure (← tokOf c0).val
+
+theorem varM_of_varOf {c0 : Node} {v : List Nat} (h : varOf c0 = some v) : varM c0 = pure v := by
+  unfold varOf at h
+  unfold varM
+  by_cases ha : c0.name = "as"
+  · simp only [ha, if_true] at h
+    split at h
+    · rename_i av hav
+      cases ht : av.tok with
+      | none => simp [ht] at h
+      | some t =>
+        simp only [ht, Option.map_some, Option.some.injEq] at h
+        subst h
+        simp [ha, child, hav, tokOf, ht]
+    · cases h
+  · have ha' : (c0.name == "as") = false := by simpa using ha
+    simp only [ha, if_false] at h
+    cases ht : c0.tok with
+    | none => simp [ht] at h
+    | some t =>
+      simp only [ht, Option.map_some, Option.some.injEq] at h
+      subst h
+      simp [ha', tokOf, ht]
+
+/-- the error-binding shapes -/
+inductive BindShape where
+  | bind (c0 st : Node) (var : List Nat)                                          -- `except e { st }` / `except as e { st }`
+  | typedAs (s0 : Node) (ss : List Node) (a av : Node) (t : Ecal.Lex.Tok) (st : Node)   -- `except "T0", … as e { st }`
+  | none
+
+def bindingShape (c : Node) : BindShape :=
+  match allSome c.children with
+  | some [c0, st] =>
+    if c0.name = "string" then .none
+    else match varOf c0 with
+      | some v => .bind c0 st v
+      | none => .none
+  | some kids =>
+    match kids.takeWhile (·.name == "string"), kids.dropWhile (·.name == "string") with
+    | s0 :: ss, [a, st] =>
+      if a.name = "as" ∧ st.name = "statements" then
+        match a.children with
+        | [some av] =>
+          (match av.tok with
+           | some t => .typedAs s0 ss a av t st
+           | none => .none)
+        | _ => .none
+      else .none
+    | _, _ => .none
+  | none => .none
+
+theorem bindingShape_bind {c c0 st : Node} {v : List Nat} (h : bindingShape c = .bind c0 st v) :
+    c.children = [some c0, some st] ∧ c0.name ≠ "string" ∧ varM c0 = pure v := by
+  unfold bindingShape at h
+  split at h
+  · rename_i c0' st' hk
+    split at h
+    · cases h
+    · rename_i hns
+      split at h
+      · rename_i v' hv
+        cases h
+        exact ⟨by simpa using allSome_eq _ _ hk, hns, varM_of_varOf hv⟩
+      · cases h
+  · split at h
+    · split at h
+      · split at h
+        · split at h <;> cases h
+        · cases h
+      · cases h
+    · cases h
+  · cases h
+
+theorem bindingShape_typedAs {c s0 a av st : Node} {ss : List Node} {t : Ecal.Lex.Tok}
+    (h : bindingShape c = .typedAs s0 ss a av t st) :
+    c.children = ((s0 :: ss) ++ [a, st]).map some ∧ (∀ x ∈ s0 :: ss, x.name = "string") ∧ a.name = "as" ∧
+      a.children = [some av] ∧ av.tok = some t ∧ st.name = "statements" := by
+  unfold bindingShape at h
+  split at h
+  · split at h
+    · cases h
+    · split at h <;> cases h
+  · rename_i _ kids _ hk
+    split at h
+    · rename_i s0' ss' a' st' htw hdw
+      split at h
+      · rename_i hcond
+        split at h
+        · rename_i av' hav
+          split at h
+          · rename_i t' ht
+            cases h
+            have hkids : kids = (s0 :: ss) ++ [a, st] := by
+              rw [← List.takeWhile_append_dropWhile (p := (·.name == "string")) (l := kids), htw, hdw]
+            refine ⟨by rw [allSome_eq _ _ hk, hkids], ?_, hcond.1, hav, ht, hcond.2⟩
+            intro x hx
+            have : x ∈ kids.takeWhile (·.name == "string") := by rw [htw]; exact hx
+            simpa using mem_takeWhile_p _ _ _ this
+          · cases h
+        · cases h
+      · cases h
+    · cases h
+  · cases h
+
+/-- the block of a binding clause: in the clause's child scope the error object is bound to the variable
+    (a failure of that assignment is dropped), then the block runs -/
+def bindBody (g : Nat → Node → Stmt) (sc : Nat) (c st : Node) (var : List Nat) (e : Sig) : Stmt :=
+  .scoped (do newChild sc (← scopeName c)) (fun evs =>
+    .seq (.leaf (do bindErr evs var e; pure Val.null)) (g evs st))
+
 /-- the block of a handled clause: in the clause's child scope -/
 def clauseBody (g : Nat → Node → Stmt) (sc : Nat) (c st : Node) : Stmt :=
   .scoped (do newChild sc (← scopeName c)) (fun evs => g evs st)
@@ -153,7 +276,15 @@ def clauseOfNode (g : Nat → Node → Stmt) (f'' sc : Nat) (c : Node) (rest : C
         let b ← typedMatch (errType e) bytesToString ((s0 :: ss).map fun ch => eval f'' sc ch)
         pure (.bool b))
       (fun _ => clauseBody g sc c st) rest
-  | .other => .opaque (exceptHandler (f''+1) sc c) rest
+  | .other =>
+    match bindingShape c with
+    | .bind _ st var => .clause (fun _ => pure (.bool true)) (fun e => bindBody g sc c st var e) rest
+    | .typedAs s0 ss _ _ t st =>
+      .clause (fun e => do
+          let b ← typedMatch (errType e) bytesToString ((s0 :: ss).map fun ch => eval f'' sc ch)
+          pure (.bool b))
+        (fun e => bindBody g sc c st t.val e) rest
+    | .none => .opaque (exceptHandler (f''+1) sc c) rest    -- `"T" e` and anything unexpected: a whole handler
 
 /-- the except clauses of a try node, in source order -/
 def clauseStmts (g : Nat → Node → Stmt) (f'' sc : Nat) : List Node → Clauses
@@ -178,7 +309,25 @@ theorem handlers_clauseOfNode (g : Nat → Node → Stmt) (f'' sc : Nat) (c : No
     simp only [bind_assoc, pure_bind]
     congr 1; funext b
     cases b <;> simp
-  | other => simp [Impl.handlers]
+  | other =>
+    simp only []
+    cases hb : bindingShape c with
+    | bind c0 st var =>
+      obtain ⟨hc, hns, hvar⟩ := bindingShape_bind hb
+      simp only [Impl.handlers, bindBody, Impl.exec, hg]
+      congr 1; funext e
+      rw [exceptHandler_bind f'' sc c c0 st e hc hns]
+      have hvar' : (if c0.name == "as" then do pure (← tokOf (← child c0 0)).val else do pure (← tokOf c0).val) = pure var := hvar
+      simp only [hvar', pure_bind, bindErrThen_eq, bind_assoc]
+    | typedAs s0 ss a av t st =>
+      obtain ⟨hc, hstr, ha, hac, hat, hst⟩ := bindingShape_typedAs hb
+      simp only [Impl.handlers, bindBody, Impl.exec, hg]
+      congr 1; funext e
+      rw [exceptHandler_typed_as f'' sc c s0 a av st t ss e hc hstr ha hac hat hst]
+      simp only [bind_assoc, pure_bind, bindErrThen_eq]
+      congr 1; funext b
+      cases b <;> simp
+    | none => simp [Impl.handlers]
 
 theorem handlers_clauseStmts (g : Nat → Node → Stmt) (f'' sc : Nat)
     (hg : ∀ sc n, Impl.exec (g sc n) = eval f'' sc n) : ∀ clauses : List Node,
